@@ -1,4 +1,217 @@
+//! C05 / C06 — one connection: requests in order, independent of each other and of TCP segmentation.
+//! Scenario (vocabulary of specs/Conn.tla): {"mode":"c05"|"c06","reqs":[{"h","b","close","z","mark","many"}..],"cuts":[positions in cells]}
+//! 1 cell = 256 bytes, buffer = 4 cells.  Two executions of every scenario:
+//!   mem: the session loop steps (clear, read, handle, send, close on `Connection: close`) over a scripted in-memory
+//!        reader that returns exactly one segment per read, through ohkami::__verif (real Request::read / Router::handle / send)
+//!   tcp: the REAL Session::manage over a loopback TcpStream, segments written one by one
+use crate::util::{self, arr, i, Rng, ScriptedReader};
+use ohkami::__verif as v;
+use ohkami::prelude::*;
 use serde_json::{json, Value};
-pub fn run(_scn: &Value) -> Value { json!({"kind": "unimplemented"}) }
-#[allow(dead_code)]
-pub fn gen(_rng: &mut crate::util::Rng, i: usize) -> Value { json!({"id": i}) }
+use std::sync::Mutex;
+
+pub const CELL: usize = 256;
+
+#[derive(Clone)]
+struct Marker(String);
+#[derive(Clone)]
+struct MarkFang;
+impl FangAction for MarkFang {
+    async fn fore<'a>(&'a self, req: &'a mut Request) -> Result<(), Response> {
+        if let Some(m) = req.headers.get("X-Mark").map(|s| s.to_string()) { req.context.set(Marker(m)) }
+        Ok(())
+    }
+}
+
+fn digest(b: &[u8]) -> String { let mut h: u64 = 1469598103934665603; for x in b { h ^= *x as u64; h = h.wrapping_mul(1099511628211) } format!("{}:{:016x}", b.len(), h) }
+
+async fn echo(k: String, req: &Request) -> String {
+    let hs = vec![format!("{:?}", req.headers)];
+    format!("k={k};m={};path={};q={:?};h=[{}];p={};ctx={}", req.method, req.path.str(), req.query.iter().collect::<Vec<_>>(), hs.join("|"),
+            req.payload().map(digest).unwrap_or("none".into()), req.context.get::<Marker>().map(|m| m.0.clone()).unwrap_or("none".into()))
+}
+
+fn router() -> v::VRouter {
+    let mut o = Ohkami::with((MarkFang,), ());
+    v::apply_handlers(&mut o, v::handler_set("/r/:k").GET(echo).POST(echo).PUT(echo));
+    v::finalize(o)
+}
+
+pub struct Conc { pub bytes: Vec<u8>, pub body: Vec<u8> }
+/// request k as bytes: head of exactly h cells (padded with a filler header), body of exactly b cells
+pub fn concretise(k: usize, r: &Value, seed: u64) -> Conc {
+    let (h, b) = (i(&r["h"]) as usize, i(&r["b"]) as usize);
+    let mut head = format!("{} /r/{k}?s={seed} HTTP/1.1\r\nHost: h{k}.example\r\nX-Req: {k}\r\n", if b == 0 { "GET" } else { "POST" });
+    if r["many"].as_bool().unwrap_or(false) { for j in 0..5 { head.push_str(&format!("X-M{j}: v{k}-{j}\r\n")) } }
+    if r["mark"].as_bool().unwrap_or(false) { head.push_str(&format!("X-Mark: m{k}\r\n")) }
+    if r["close"].as_bool().unwrap_or(false) { head.push_str("Connection: close\r\n") }
+    if b > 0 { head.push_str(&format!("Content-Length: {}\r\n", b * CELL)) }
+    let fixed = head.len() + "X-Pad: ".len() + 2 + 2;
+    let pad = (h * CELL).checked_sub(fixed).expect("head does not fit its cells");
+    head.push_str(&format!("X-Pad: {}\r\n\r\n", "p".repeat(pad)));
+    assert_eq!(head.len(), h * CELL);
+    let mut body: Vec<u8> = (0..b * CELL).map(|j| ((j as u64 * 13 + k as u64 * 31 + seed) % 250 + 1) as u8).collect();
+    if b > 0 && r["z"].as_bool().unwrap_or(false) { body[0] = 0; body[b * CELL / 2] = 0 }
+    let mut bytes = head.into_bytes(); bytes.extend_from_slice(&body);
+    Conc { bytes, body }
+}
+
+fn strip_date(b: &[u8]) -> Vec<u8> {
+    let s = String::from_utf8_lossy(b).to_string();
+    s.split("\r\n").filter(|l| !l.to_ascii_lowercase().starts_with("date:")).collect::<Vec<_>>().join("\r\n").into_bytes()
+}
+
+/// the response request k gets as the only request on a fresh connection
+fn fresh(router: &v::VRouter, c: &Conc) -> Vec<u8> {
+    util::block_on(async {
+        let mut vr = v::VRequest::new();
+        let mut rd = ScriptedReader::new(vec![c.bytes.clone()]);
+        let res = match vr.read(&mut rd).await { Ok(Some(())) => vr.handle(router).await, Ok(None) => return b"<closed>".to_vec(), Err(e) => e };
+        let mut out = vec![]; v::send(res, &mut out).await; strip_date(&out)
+    })
+}
+
+/// byte segments from the cell-level cuts; cuts inside a head or body are jittered by a few bytes (never across a part boundary)
+pub fn segments(stream: &[u8], cuts: &[Value], boundaries: &[usize], seed: u64) -> Vec<Vec<u8>> {
+    let mut pos: Vec<usize> = cuts.iter().enumerate().map(|(n, c)| {
+        let p = i(c) as usize * CELL;
+        if boundaries.contains(&p) { p } else { let j = ((seed as usize + n * 7) % 41) as isize - 20; (p as isize + j) as usize }
+    }).collect();
+    pos.push(stream.len());
+    let mut out = vec![]; let mut from = 0;
+    for p in pos { if p > from { out.push(stream[from..p].to_vec()); from = p } }
+    out
+}
+
+fn classify(out: &[u8], concs: &[Conc], fresh: &[Vec<u8>]) -> Vec<Value> {
+    // split the byte stream the client received into responses
+    let mut res = vec![]; let mut at = 0;
+    while at < out.len() {
+        let p = util::parse_response(&out[at..], false);
+        if !p.error.is_empty() || p.consumed == 0 { res.push(json!({"k": 0, "status": 0, "body_ok": false, "same": false, "what": util::clip(&p.error, 60)})); break }
+        let raw = &out[at..at + p.consumed]; at += p.consumed;
+        let body = String::from_utf8_lossy(&p.body).to_string();
+        let k: usize = body.strip_prefix("k=").and_then(|r| r.split(';').next()).and_then(|x| x.parse().ok()).unwrap_or(0);
+        if p.status == 200 && k >= 1 && k <= concs.len() {
+            let want = if concs[k - 1].body.is_empty() { "p=none".to_string() } else { format!("p={}", digest(&concs[k - 1].body)) };
+            res.push(json!({"k": k as i64, "status": 200, "body_ok": body.contains(&want), "same": strip_date(raw) == fresh[k - 1], "what": ""}));
+        } else { res.push(json!({"k": 0, "status": p.status as i64, "body_ok": false, "same": false, "what": util::clip(&body, 40)})) }
+    }
+    res
+}
+
+fn run_mem(router: &v::VRouter, segs: Vec<Vec<u8>>) -> (Vec<u8>, &'static str, bool) {
+    util::block_on(async {
+        let mut rd = ScriptedReader::new(segs);
+        let mut vr = v::VRequest::new();
+        let mut out = vec![]; let mut end = "stuck";
+        for _ in 0..64 {
+            vr.clear();
+            match vr.read(&mut rd).await {
+                Ok(Some(())) => {
+                    let close = matches!(vr.get().headers.Connection(), Some("close" | "Close"));
+                    let res = vr.handle(router).await;
+                    v::send(res, &mut out).await;
+                    if close { end = "close-header"; break }
+                }
+                Ok(None) => { end = "eof"; break }
+                Err(res) => { v::send(res, &mut out).await; }
+            }
+        }
+        let unread = !rd.exhausted();
+        (out, end, unread)
+    })
+}
+
+static EVENTS: Mutex<Vec<(&'static str, usize, usize)>> = Mutex::new(Vec::new());
+fn emit(k: &'static str, a: usize, b: usize) { EVENTS.lock().unwrap().push((k, a, b)) }
+
+fn run_tcp(router: &v::VRouter, segs: Vec<Vec<u8>>, wait_after: Vec<bool>) -> (Vec<u8>, &'static str, Vec<Value>) {
+    use tokio::io::{AsyncReadExt, AsyncWriteExt};
+    EVENTS.lock().unwrap().clear();
+    v::install_emit(emit);
+    let r2 = router.clone();
+    let (out, end) = util::block_on(async move {
+        let l = tokio::net::TcpListener::bind("127.0.0.1:0").await.unwrap();
+        let addr = l.local_addr().unwrap();
+        let (c, sv) = tokio::join!(tokio::net::TcpStream::connect(addr), l.accept());
+        let (mut c, (sv, peer)) = (c.unwrap(), sv.unwrap());
+        c.set_nodelay(true).ok();
+        let server = tokio::spawn(async move { v::session(&r2, sv, peer.ip()).await });
+        let mut out: Vec<u8> = vec![]; let mut buf = vec![0u8; 65536]; let mut end = "open";
+        let mut complete_responses = |out: &Vec<u8>| -> usize { let mut n = 0; let mut at = 0; while at < out.len() { let p = util::parse_response(&out[at..], false); if !p.error.is_empty() || p.consumed == 0 { break } at += p.consumed; n += 1 } n };
+        let mut expected = 0usize;
+        'outer: for (n, sg) in segs.iter().enumerate() {
+            if c.write_all(sg).await.is_err() { end = "write-failed"; break }
+            let _ = c.flush().await;
+            if wait_after[n] {
+                // a whole request has been delivered and the next one starts in another segment: wait for its response
+                expected += 1;
+                let deadline = tokio::time::Instant::now() + std::time::Duration::from_millis(400);
+                while complete_responses(&out) < expected {
+                    match tokio::time::timeout_at(deadline, c.read(&mut buf)).await {
+                        Ok(Ok(0)) => { end = "server-closed"; break 'outer }
+                        Ok(Ok(m)) => out.extend_from_slice(&buf[..m]),
+                        Ok(Err(_)) => { end = "server-reset"; break 'outer }
+                        Err(_) => break, // no response in time: go on, the verdict does not depend on it
+                    }
+                }
+            } else { tokio::time::sleep(std::time::Duration::from_millis(2)).await }
+        }
+        // drain what is still coming, then half-close and read to the end
+        loop {
+            match tokio::time::timeout(std::time::Duration::from_millis(120), c.read(&mut buf)).await {
+                Ok(Ok(0)) => { if end == "open" { end = "server-closed" } break }
+                Ok(Ok(m)) => out.extend_from_slice(&buf[..m]),
+                Ok(Err(_)) => { if end == "open" { end = "server-reset" } break }
+                Err(_) => break,
+            }
+        }
+        if end == "open" {
+            let _ = c.shutdown().await;
+            loop { match tokio::time::timeout(std::time::Duration::from_millis(500), c.read(&mut buf)).await { Ok(Ok(0)) | Ok(Err(_)) | Err(_) => break, Ok(Ok(m)) => out.extend_from_slice(&buf[..m]) } }
+            end = "eof";
+        }
+        let _ = tokio::time::timeout(std::time::Duration::from_millis(500), server).await;
+        (out, end)
+    });
+    let evs = EVENTS.lock().unwrap().iter().map(|(k, a, b)| json!([k, *a as i64, *b as i64])).collect();
+    (out, end, evs)
+}
+
+pub fn run(scn: &Value) -> Value {
+    let reqs = arr(&scn["reqs"]);
+    let seed = scn["seed"].as_u64().unwrap_or_else(|| scn["id"].as_u64().unwrap_or(0));
+    let router = router();
+    let concs: Vec<Conc> = reqs.iter().enumerate().map(|(k, r)| concretise(k + 1, r, seed)).collect();
+    let fresh: Vec<Vec<u8>> = concs.iter().map(|c| fresh(&router, c)).collect();
+    let mut stream = vec![]; let mut boundaries = vec![]; let mut ends = vec![];
+    for (k, c) in concs.iter().enumerate() { boundaries.push(stream.len() + i(&reqs[k]["h"]) as usize * CELL); stream.extend_from_slice(&c.bytes); boundaries.push(stream.len()); ends.push(stream.len()) }
+    let segs = segments(&stream, arr(&scn["cuts"]), &boundaries, seed);
+    // mem
+    let (out, end, unread) = run_mem(&router, segs.clone());
+    let mem = json!({"resp": classify(&out, &concs, &fresh), "end": end, "unread": unread});
+    // tcp: wait for a response after a segment that ends exactly at the end of a request
+    let mut acc = 0; let wait_after: Vec<bool> = segs.iter().map(|sg| { acc += sg.len(); ends.contains(&acc) }).collect();
+    let (out2, end2, evs) = run_tcp(&router, segs.clone(), wait_after);
+    let tcp = json!({"resp": classify(&out2, &concs, &fresh), "end": end2, "unread": false});
+    json!({"kind": "conn", "mem": mem, "tcp": tcp, "events": evs, "nsegs": segs.len() as i64})
+}
+
+/// random histories: 3-12 requests, random cuts anywhere (cell units), sizes around the buffer
+pub fn gen(rng: &mut Rng, idx: usize) -> Value {
+    let c05 = idx % 2 == 0;
+    let n = rng.range(2, if c05 { 10 } else { 5 });
+    let reqs: Vec<Value> = (0..n).map(|k| json!({"h": rng.range(1, 3), "b": if rng.chance(1, 2) { 0 } else { rng.range(1, 6) }, "close": k + 1 == n && rng.chance(1, 3),
+        "z": rng.chance(1, 3), "mark": rng.chance(1, 3), "many": rng.chance(1, 3)})).collect();
+    let mut ends = vec![]; let mut tot = 0; for r in &reqs { tot += (i(&r["h"]) + i(&r["b"])) as usize; ends.push(tot) }
+    let mut cuts: Vec<usize> = if c05 { ends[..ends.len() - 1].to_vec() } else {
+        let mut cs: Vec<usize> = (1..tot).filter(|_| rng.chance(1, 3)).collect();
+        // keep the classes mixed: half of the c06 scenarios never coalesce two requests
+        if rng.chance(1, 2) { for e in &ends[..ends.len() - 1] { if !cs.contains(e) { cs.push(*e) } } }
+        cs
+    };
+    cuts.sort(); cuts.dedup();
+    json!({"id": idx, "seed": rng.next() % 1000, "mode": if c05 { "c05" } else { "c06" }, "reqs": reqs, "cuts": cuts,
+           "model": {"resp": [], "dropped": false, "fin": "unknown"}})
+}
